@@ -585,6 +585,8 @@ func cmpType(kind string, c sql.CollationID) sql.Type {
 		return types.Int64
 	case "decimal":
 		return types.InternalDecimalType
+	case "float64":
+		return types.Float64
 	case "textc":
 		return types.CreateLongText(c)
 	case "textd":
@@ -731,7 +733,7 @@ func unitCases(out *hx.Out, r *hx.Rand, colls []collInfo, n int) {
 			}
 			hashofCase(ci, kinds, short, row)
 		case 5, 6, 7, 8:
-			ty := hx.Pick(r, []string{"int64", "decimal", "textc", "textd"})
+			ty := hx.Pick(r, []string{"int64", "decimal", "textc", "textd", "float64"})
 			var v val
 			switch ty {
 			case "int64":
@@ -746,6 +748,14 @@ func unitCases(out *hx.Out, r *hx.Rand, colls []collInfo, n int) {
 				v = genDec(r, 5)
 				if r.Chance(1, 4) {
 					v = vint(genInt(r))
+				}
+			case "float64": // integers up to 2^53 and short decimals: 'f'/-1 formatting is the trimmed text
+				v = genDec(r, 4)
+				if v.i > 100000 || v.i < -100000 {
+					v.i %= 100000
+				}
+				if r.Chance(1, 3) {
+					v = vint(int64(r.Range(-100000, 100000)))
 				}
 			default:
 				v = vstr(genStr(r))
@@ -1375,6 +1385,16 @@ func run(a hx.RunArgs) error {
 		x := genColVal(re, tp[0], nil)
 		pool = append(pool, x)
 		y := genColVal(re, tp[1], pool)
+		// (same envelope as the op stream: `=` between DECIMAL columns of different scale rounds to the
+		// smaller scale — C26 — so the larger-scale side only holds values the smaller scale can hold)
+		if tp[0][0] == 'd' && tp[1][0] == 'd' && tp[0] != tp[1] {
+			if tp[0].scale() > tp[1].scale() && x.k == 'd' {
+				x.i -= x.i % pow10(tp[0].scale()-tp[1].scale())
+			}
+			if tp[1].scale() > tp[0].scale() && y.k == 'd' {
+				y.i -= y.i % pow10(tp[1].scale()-tp[0].scale())
+			}
+		}
 		o.eqCase(ci, tp[0], tp[1], x, y)
 		if o.err != nil {
 			return o.err
